@@ -16,10 +16,9 @@ import json
 import random
 
 import vlib
-from props.c13 import selftest_reject
 
 PID = "C11"
-CLOCKS = ["blockchain/blockchain.go"]
+CLOCKS = ["blockchain/blockchain.go", "protocol/downloader.go"]   # the Downloader's back-off sleeps run on the virtual clock
 
 # which listed property a broken clause belongs to
 PREFIX = {
@@ -33,23 +32,39 @@ VARIANTS = {
 }
 
 
-def to_scenario(e, idx, rnd):
-    """TLC export -> driver scenario (fault variants of the same abstract class are chosen by the seed)."""
-    plans = {}
-    for p, row in e["plans"].items():
-        d = {}
-        for i, f in enumerate(row):
-            if f != "none":
-                if f in VARIANTS and (f != "diff-wrong" or e["shape"][i] == "U"):
-                    f = rnd.choice(VARIANTS[f])
-                d[str(i + 1)] = f
-        plans[p] = d
-    mans = {}
-    for p, m in e["mans"].items():
+def to_scenarios(e, idx, rnd):
+    """TLC export -> driver scenarios.  An abstract fault class stands for several concrete alterations: a bad manifest and an
+    altered diff of an identity-update block are run in EVERY variant, the others in a variant chosen by the seed."""
+    choices = []   # (kind, peer, key, variants)
+    for p in sorted(e["plans"]):
+        for i, f in enumerate(e["plans"][p]):
+            if f == "none":
+                continue
+            if f == "diff-wrong" and e["shape"][i] == "U":
+                choices.append(("plan", p, str(i + 1), VARIANTS[f]))
+            elif f == "cert-outsider":
+                choices.append(("plan", p, str(i + 1), [rnd.choice(VARIANTS[f])]))
+            else:
+                choices.append(("plan", p, str(i + 1), [f]))
+    for p in sorted(e["mans"]):
+        m = e["mans"][p]
         if m != "ok":
-            mans[p] = rnd.choice(VARIANTS[m]) if m in VARIANTS else m
+            choices.append(("man", p, "", VARIANTS.get(m, [m])))
+    combos = [[]]
+    for c in choices:
+        combos = [x + [(c[0], c[1], c[2], v)] for x in combos for v in c[3]]
+    res = []
     steps = [{"op": s["op"], "peer": s.get("peer", ""), "n": s.get("n", 0)} for s in e["steps"]]
-    return {"id": "m%d" % idx, "class": e["class"], "shape": e["shape"], "plans": plans, "mans": mans, "steps": steps}
+    for j, combo in enumerate(combos):
+        plans = {p: {} for p in e["plans"]}
+        mans = {}
+        for kind, p, key, v in combo:
+            if kind == "plan":
+                plans[p][key] = v
+            else:
+                mans[p] = v
+        res.append({"id": "m%d.%d" % (idx, j), "class": e["class"], "shape": e["shape"], "plans": plans, "mans": mans, "steps": steps})
+    return res
 
 
 def pick(exports, rnd, per_class):
@@ -75,7 +90,7 @@ def signature(rows, start, end, line, clause):
     """A stable, specific signature of the violated scenario: the alterations that were really on the wire before the line."""
     faults = set()
     for x in rows[start:line]:
-        if x.get("ev") == "Serve":
+        if x.get("ev") in ("Serve", "Wire"):
             for b in x["blocks"]:
                 if b["f"] != "none":
                     faults.add(b["f"])
@@ -93,14 +108,14 @@ def describe(rows, start, end, line, clause):
     steps = []
     for x in rows[start + 1:line]:
         ev = x.get("ev")
-        if ev == "Serve":
+        if ev in ("Serve", "Wire"):
             steps.append("%s serves %d..%d%s" % (x["peer"], x["from"], x["to"],
                                                  "".join(" [%d:%s]" % (b["h"], b["f"]) for b in x["blocks"] if b["f"] != "none")))
-        elif ev in ("New", "BatchEnd", "Post", "Restart", "Tail"):
+        elif ev in ("New", "BatchEnd", "Post", "Restart", "Tail", "Synced"):
             steps.append("%s%s" % (ev, "(%s)" % x.get("res") if "res" in x else ""))
     shape = " ".join("%d:%s%s%s%s" % (b["h"], b["kind"], "+diff" if b["diff"] else "", "+need" if b["need"] else "", "+cert" if b["cert"] else "")
                      for b in ch["blocks"][:ch["N"]])
-    obs = {k: bad.get(k) for k in ("res", "err", "man", "invalid", "leftover", "accepted", "switched") if k in bad}
+    obs = {k: bad.get(k) for k in ("res", "err", "man", "invalid", "leftover", "accepted", "switched", "fast", "rounds", "top", "msg", "stack") if k in bad}
     if "obs" in bad:
         o = bad["obs"]
         obs.update({"head": o["canon"]["head"], "prelim": o["prelim"], "deferred": o["deferred"], "banned": o["banned"], "forked": o["forked"],
@@ -147,7 +162,7 @@ def validate(ctx, trace, label):
 def stats_of(rows):
     st = {"scenarios": 0, "switched": 0, "batches": 0, "batches_refused": 0, "reloads": 0, "restarts": 0, "appliers": 0, "resumed_appliers": 0,
           "post_refused_snapshot": 0, "post_early": 0, "tail_blocks": 0, "faults_on_wire": {}, "bad_manifests": {}, "blocks_served": 0,
-          "deferred_across_batches": 0}
+          "deferred_across_batches": 0, "downloader_runs": 0, "downloader_fast_syncs": 0, "downloader_refusals": 0, "panics": 0}
     for x in rows:
         ev = x.get("ev")
         if ev == "Chain":
@@ -159,7 +174,13 @@ def stats_of(rows):
             st["batches_refused"] += 1 if x["res"] != "ok" else 0
             st["reloads"] += max(0, x.get("attempts", 1) - 1)
             st["deferred_across_batches"] += 1 if x["res"] == "ok" and x["obs"]["deferred"] else 0
-        elif ev == "Serve":
+        elif ev == "Synced":
+            st["downloader_runs"] += 1
+            st["downloader_fast_syncs"] += 1 if x.get("fast") else 0
+            st["downloader_refusals"] += 1 if x["obs"]["banned"] or x["obs"]["forked"] else 0
+        elif ev == "Panic":
+            st["panics"] += 1
+        elif ev in ("Serve", "Wire"):
             st["blocks_served"] += len(x["blocks"])
             for b in x["blocks"]:
                 if b["f"] != "none":
@@ -181,6 +202,26 @@ def stats_of(rows):
     return st
 
 
+def selftest(ctx, trace, mutations, n_lines=150):
+    """Binding self-test: the recorded prefix is accepted, each corrupted copy of it is rejected."""
+    rows = vlib.read_ndjson(trace)[:n_lines]
+    good = ctx.path("selftest", "good.ndjson")
+    vlib.write_ndjson(good, rows)
+    ok, info = vlib.trace_validate(ctx, "Trace_FastSync.tla", "Trace_FastSync.cfg", good)
+    if not ok:
+        raise vlib.CheckError("binding self-test: the recorded prefix is not accepted: %s" % json.dumps(info)[:600])
+    for m in mutations:
+        bad_rows = m(json.loads(json.dumps(rows)))
+        if bad_rows is None:
+            raise vlib.CheckError("binding self-test %s could not build a corrupted trace" % m.__name__)
+        bad = ctx.path("selftest", "bad_%s.ndjson" % m.__name__)
+        vlib.write_ndjson(bad, bad_rows)
+        ok, info = vlib.trace_validate(ctx, "Trace_FastSync.tla", "Trace_FastSync.cfg", bad)
+        if ok:
+            raise vlib.CheckError("binding self-test failed: corrupted trace (%s) was accepted by Trace_FastSync" % m.__name__)
+        ctx.log("binding self-test %s: rejected at line %s (%s)" % (m.__name__, info.get("line"), info.get("clause")))
+
+
 def run(ctx, quick):
     rnd = random.Random(ctx.seed)
     drv = vlib.build_driver(ctx, "d_fastsync", clocks=CLOCKS)
@@ -192,7 +233,7 @@ def run(ctx, quick):
         raise vlib.CheckError("design-level FastSync model violates %s (model-only, not a verdict):\n%s" % (r.invariant, (r.error or "")[:1800]))
     per_class = 1 if quick else 5
     chosen, classes = pick(r.exports, rnd, per_class)
-    ctx.log("model: %d generated / %d distinct states; %d transitions exported in %d classes; running %d scenarios"
+    ctx.log("model: %d generated / %d distinct states; %d transitions exported in %d classes; %d chosen"
             % (r.generated, r.distinct, len(r.exports), len(classes), len(chosen)))
     need = ["refuse/reload/", "refuse/forked/", "refuse/fail/", "post/snap-otherheight", "post/snap-unavailable", "switch", "restart/", "resume/",
             "deferred-across-batches", "honest-blamed"]
@@ -201,8 +242,11 @@ def run(ctx, quick):
             raise vlib.CheckError("the model never exercised a '%s' transition (vacuous bounds)" % n)
     cases = ctx.path("cases.json")
     with open(cases, "w") as f:
+        nsc = 0
         for i, e in enumerate(chosen):
-            f.write(json.dumps(to_scenario(e, i, rnd)) + "\n")
+            for sc in to_scenarios(e, i, rnd):
+                f.write(json.dumps(sc) + "\n")
+                nsc += 1
 
     # 2. the real code on the exported scenarios and on seeded random scenarios over a long chain
     t_model = ctx.path("trace_model.ndjson")
@@ -211,8 +255,8 @@ def run(ctx, quick):
         raise vlib.CheckError("driver failed on the exported scenarios:\n" + (p.stdout or "")[-3000:])
     ctx.log("exported scenarios: " + (p.stdout or "").strip().splitlines()[-1])
     t_rand = ctx.path("trace_random.ndjson")
-    nrand, clen = (60, 70) if quick else (700, 110)
-    p = vlib.run_driver(ctx, drv, ["-random", str(nrand), "-len", str(clen), "-out", t_rand], timeout=3000)
+    nrand, ndown, clen = (70, 25, 70) if quick else (800, 300, 110)
+    p = vlib.run_driver(ctx, drv, ["-random", str(nrand), "-downloader", str(ndown), "-len", str(clen), "-out", t_rand], timeout=3000)
     if p.returncode != 0:
         raise vlib.CheckError("driver failed on the random scenarios:\n" + (p.stdout or "")[-3000:])
     ctx.log("random scenarios: " + " | ".join((p.stdout or "").strip().splitlines()[-2:]))
@@ -222,7 +266,7 @@ def run(ctx, quick):
     ok2, info2, rows2 = validate(ctx, t_rand, "random-scenario")
     s1, s2 = stats_of(rows1), stats_of(rows2)
     for k, v in (("batches_refused", 20), ("reloads", 5), ("restarts", 5), ("resumed_appliers", 10), ("post_refused_snapshot", 2), ("switched", 20),
-                 ("deferred_across_batches", 5)):
+                 ("deferred_across_batches", 5), ("downloader_fast_syncs", 10), ("downloader_refusals", 2)):
         if s1[k] + s2[k] < v:
             raise vlib.CheckError("dead driver: only %d '%s' in all traces" % (s1[k] + s2[k], k))
     if len(s1["faults_on_wire"]) < 9:
@@ -250,8 +294,7 @@ def run(ctx, quick):
                     row["sync"]["canon"]["view"] = "1/1/1:0000000000000000"  # another validator view than the reference's
                     return rows_
             return None
-        for m in (stored_diff_altered, head_moved_early, arrived_differs):
-            selftest_reject(ctx, "Trace_FastSync.tla", "Trace_FastSync.cfg", t_model, m, n_lines=120)
+        selftest(ctx, t_model, (stored_diff_altered, head_moved_early, arrived_differs))
 
     sample = [x for x in rows1 if x.get("ev") == "Chain"]
     cov = {
@@ -262,8 +305,10 @@ def run(ctx, quick):
         "fastsync_model_run": s1, "fastsync_random_run": s2,
         "fastsync_drift_steps": (info1.get("drift") or 0) + (info2.get("drift") or 0),
         "fastsync_samples": [{k: x.get(k) for k in ("scenario", "class", "abstract", "plans", "mans")} for x in sample[:3]],
-        "fastsync_orchestration": "fastSync object, handler, peers, wire codec, serving side, SnapshotManager are the repository's; "
-                                  "the request loop of Downloader.Load (applier construction, one GetBlocksRange per batch, postConsuming) is mirrored by the driver",
+        "fastsync_orchestration": "fastSync object, handler, peers, wire codec, serving side, SnapshotManager are the repository's; in the step-wise "
+                                  "scenarios the request loop of Downloader.Load (applier construction, one GetBlocksRange per batch, postConsuming) is "
+                                  "mirrored by the driver; in the downloader scenarios the repository's whole Downloader.SyncBlockchain runs (fast sync, then "
+                                  "full sync of the rest) and nothing is mirrored",
     }
     return cov
 
@@ -283,5 +328,5 @@ def main(ctx):
     return vlib.finish(ctx, "model_checking", out, assumptions=[
         "upgrade blocks / NewGenesis during a fast sync are not generated",
         "the libp2p stream is an in-memory pipe; time-outs of silent peers (20 s) are not exercised",
-        "the request loop of Downloader.Load is mirrored by the driver (see fastsync_orchestration)",
+        "step-wise scenarios mirror the request loop of Downloader.Load; the downloader scenarios run the real one (see fastsync_orchestration)",
     ])
